@@ -297,13 +297,30 @@ func call(ctx context.Context, conn *jsonrpc2.Connection, method string, params 
 			return errors.Join(ctx.Err(), err)
 		}
 		conn.Retire(call, ctx.Err())
+		cancelled := &CancelledParams{
+			Reason:    ctx.Err().Error(),
+			RequestID: call.ID().Raw(),
+		}
+		// Under protocol versions >= 2026-07-28 every message carries the
+		// per-request _meta fields; a notice without them is refused by the
+		// server, and that refusal would break the session. Carry over the
+		// ones of the request being cancelled.
+		if params != nil {
+			if m := params.GetMeta(); m != nil {
+				for _, k := range []string{MetaKeyProtocolVersion, MetaKeyClientInfo, MetaKeyClientCapabilities} {
+					if v, ok := m[k]; ok {
+						if cancelled.Meta == nil {
+							cancelled.Meta = Meta{}
+						}
+						cancelled.Meta[k] = v
+					}
+				}
+			}
+		}
 		go func() {
 			notifyCtx, stop := context.WithTimeout(context.WithoutCancel(ctx), notifyCancellationTimeout)
 			defer stop()
-			_ = conn.Notify(notifyCtx, notificationCancelled, &CancelledParams{
-				Reason:    ctx.Err().Error(),
-				RequestID: call.ID().Raw(),
-			})
+			_ = conn.Notify(notifyCtx, notificationCancelled, cancelled)
 		}()
 		return ctx.Err()
 	case err != nil:
